@@ -131,7 +131,8 @@ def run(model: Model, rep: Report, tier: str) -> None:
     # removals: every removed set ⊆ iter_latents
     for fn in ("remove_widow_latents", "remove_unidirectional_latents", "remove_redundant_latents"):
         f = model.func(f"{SL}.{fn}")
-        ev = Evaluator(model, primitives={f"{SL}.iter_latents", f"{SL}._assert_variable_nodes", f"{SL}._iter_redundant_latents"})
+        red_helper = helpers[0] if len(helpers) == 1 else f"{SL}._iter_redundant_latents"
+        ev = Evaluator(model, primitives={f"{SL}.iter_latents", f"{SL}._assert_variable_nodes", red_helper})
         D = typed(ev, "graph", "nx.DiGraph")
         rets = return_paths(ev.run(f, {"graph": D, "tag": const("hidden")}))
         cons = construct(f, "latents-only")
@@ -147,7 +148,7 @@ def run(model: Model, rep: Report, tier: str) -> None:
                     fm = sa.member(x, arg) if e[1] == "remove_nodes_from" else sa.eq_atom(x, arg)
                     latf = ("atom", ("in", x, "LATENTS"))
                     core = sa.strip(arg)
-                    if core[0] == "call" and core[1] == f"{SL}._iter_redundant_latents" and kwargs_of(core).get("graph") == D:
+                    if core[0] == "call" and core[1] == red_helper and D in (list(core[2]) + list(kwargs_of(core).values())):
                         continue  # its elements are latents by the rule on _iter_redundant_latents (guard:redundant)
                     fm2 = _abstract_latents(fm, D)
                     eq, row, _ = compare(f_and(fm2, f_not(latf)), False)
